@@ -98,6 +98,9 @@ class C10(Prop):
         dig = ref.rec.digest()
         if kind in ('stepcap', 'repo_exception'):
             return verdict('discard', [], c, dig, discard='reference_' + kind, sample=world.summary(scn))
+        if ref.rec.n_solver_calls > 600:
+            # e.g. a rule that flips a link at every 60 s rule step for 18 h: every one of the ~40 paused runs would repeat ~2000 solves
+            return verdict('discard', [], c, dig, discard='too_many_solves_for_an_enumeration', sample=world.summary(scn))
         if kind.startswith('discard'):
             return verdict('discard', [], c, dig, discard=kind[8:], sample=world.summary(scn))
         full = inv.rows(ref.tables)
